@@ -123,6 +123,7 @@ def materialise(x, where=""):
     """exact value in [0, 2^w): reduces a possibly wrapped value with a quotient variable"""
     if not x.mod and 0 <= x.lo and x.hi < (1 << x.w):
         return x
+    C.wraps.append(("value used after a possible wrap-around at width %d" % x.w, x.lo, x.hi, where))
     return low_bits(x, x.w, "wrap")
 
 
@@ -150,6 +151,19 @@ def split(x, k):
     key = (tuple(sorted(x.poly.items())), k)
     r = C.shr_cache.get(key)
     if r is None:
+        # x = 2^g * y exactly: floor(x / 2^k) = floor(y / 2^(k-g)), rem = 2^g * rem_y  ((2y) >> 51 and y >> 50 share q)
+        g = trailing_zeros(x)
+        if x.poly and g > 0:
+            j = min(g, k)
+            y = {m: c >> j for m, c in x.poly.items()}
+            ylo, yhi = x.lo >> j, x.hi >> j
+            if k == j:
+                r = (LV(y, ylo, yhi, x.w), LV({}, 0, 0, x.w))
+            else:
+                yq, yrem = split(LV(y, ylo, yhi, x.w), k - j)
+                r = (LV(yq.poly, yq.lo, yq.hi, x.w), LV(pscale(yrem.poly, 1 << j), yrem.lo << j, yrem.hi << j, x.w))
+            C.shr_cache[key] = r
+            return r
         # x = L + 2^j * y with 0 <= L < 2^j (j <= k): floor(x / 2^k) = floor(y / 2^(k-j)) -- the quotient variable of y is
         # shared, so that a value assembled from pieces of other words carries the same quotients as those words
         for j in range(k, 0, -1):
@@ -206,23 +220,28 @@ def binop(op, a, b, w):
     a, b = lift(a, w), lift(b, w)
     if op in ("add", "sub"):
         sb = 1 if op == "add" else -1
+        # a constant >= 2^(w-1) added to a value is the two's-complement form of a subtraction
+        if not set(b.poly) - {()} and b.lo == b.hi and b.lo >= (1 << (w - 1)):
+            b = LV(pconst(b.lo - (1 << w)), b.lo - (1 << w), b.lo - (1 << w), w)
+        elif not set(a.poly) - {()} and a.lo == a.hi and a.lo >= (1 << (w - 1)) and op == "add":
+            a = LV(pconst(a.lo - (1 << w)), a.lo - (1 << w), a.lo - (1 << w), w)
         lo = a.lo + (b.lo if sb == 1 else -b.hi)
         hi = a.hi + (b.hi if sb == 1 else -b.lo)
-        r = LV(padd(a.poly, b.poly, sb), lo, hi, w, mod=a.mod or b.mod)
-        if (hi >= (1 << w) or lo < 0) and not r.mod:
-            r.mod = True
-            C.notes.append("%s may wrap at width %d: [%d, %d]" % (op, w, lo, hi))
-            C.wraps.append((op, w, lo, hi))
-        return r
+        # the machine result is congruent to the polynomial mod 2^w whatever happened before; it IS the polynomial
+        # whenever the interval fits the word (an intermediate wrap that cancels -- f + (C - g) -- is harmless); a value
+        # that may really have wrapped is reported when it is used (materialise)
+        return LV(padd(a.poly, b.poly, sb), lo, hi, w, mod=(hi >= (1 << w) or lo < 0))
     if op == "mul":
+        # a constant >= 2^(w-1) is the two's-complement form of a negative factor (x * -19)
+        for x_, y_ in ((a, b), (b, a)):
+            if not set(y_.poly) - {()} and y_.lo == y_.hi and y_.lo >= (1 << (w - 1)) and not x_.mod:
+                c = y_.lo - (1 << w)
+                lo, hi = min(c * x_.lo, c * x_.hi), max(c * x_.lo, c * x_.hi)
+                return LV(pscale(x_.poly, c), lo, hi, w, mod=(hi >= (1 << w) or lo < 0))
         a, b = materialise(a), materialise(b)
         cands = [a.lo * b.lo, a.lo * b.hi, a.hi * b.lo, a.hi * b.hi]
         lo, hi = min(cands), max(cands)
-        r = LV(pmul(a.poly, b.poly), lo, hi, w)
-        if hi >= (1 << w) or lo < 0:
-            r.mod = True
-            C.wraps.append(("mul", w, lo, hi))
-        return r
+        return LV(pmul(a.poly, b.poly), lo, hi, w, mod=(hi >= (1 << w) or lo < 0))
     if op == "shl":
         if isinstance(b, LV) and len(b.poly) <= 1 and b.lo == b.hi:
             k = b.lo
@@ -243,14 +262,14 @@ def binop(op, a, b, w):
                 m = y.lo
                 if m & (m + 1) == 0:
                     return low_bits(x, m.bit_length(), "and")
-                # mask with trailing zeros: (x >> t) & (2^k - 1) << t
+                # contiguous mask 2^a - 2^t (bits t..a-1): x & m = (x mod 2^a) - (x mod 2^t); both go through the
+                # provenance-aware low_bits, so the quotient variables are those of the original value
                 t = (m & -m).bit_length() - 1
                 mm = m >> t
                 if mm & (mm + 1) == 0:
-                    x = materialise(x)
-                    q, _ = split(x, t)
-                    r = low_bits(q, mm.bit_length(), "and")
-                    return LV(pscale(r.poly, 1 << t), r.lo << t, r.hi << t, w)
+                    a_ = t + mm.bit_length()
+                    hi_, lo_ = low_bits(x, a_, "and"), low_bits(x, t, "and")
+                    return LV(padd(hi_.poly, lo_.poly, -1), 0, min(m, hi_.hi), w)
         raise LimbError("and with a non-contiguous or symbolic mask")
     if op == "or":
         # bit-disjoint operands: or == add
